@@ -282,6 +282,9 @@ def h_store(ctx, n_ops, ops=OPS, configs=None):
             ctx.note(bad)
         ctx.claim('%s_every_crash_image_loads_to_a_logical_state' % label, ok_all)
 
+    # reading a batch goes through the memory map, whose creation writes the header: a harness that reads back after every
+    # operation would hide e.g. a close() that forgets the header.  Whether the script's user reads in between is a choice.
+    read_back = ctx.flag('user_reads_back_after_every_operation')
     with env(fs):
         store = est.NpyStore(name, bs)
         # initialise with the first batch and flush: property speaks of an initialised store after a flush
@@ -353,7 +356,8 @@ def h_store(ctx, n_ops, ops=OPS, configs=None):
                 img = bytes(fs.files[name])
                 arr = load_image(img)
                 ctx.claim('op%d_flushed_file_is_standard_npy_with_the_content' % k, same_content(arr, logical(), hidden[0]))
-            check_store(store, 'op%d_%s' % (k, op))
+            if read_back or k == n_ops - 1:
+                check_store(store, 'op%d_%s' % (k, op))
             check_crash('op%d_%s' % (k, op))
         ctx.note('config=%s script=%s' % (cfg, script))
         store.close()
